@@ -1265,6 +1265,15 @@ class ConnectionBase(object):
             self.stats.dropped += 1
             return False
 
+        # a datagram which was not authenticated using the session key
+        # (no key is set yet, or the packet type is sent in clear) is only
+        # allowed to carry the single hello message that establishes the key
+        if not self.session_key_bytes or hdr.pkt_type == PacketType.SERVER_HELLO:
+            hello = PacketType.CLIENT_HELLO if self.isServer else PacketType.SERVER_HELLO
+            if self.session_key_bytes or hdr.count != 1 or hdr.pkt_type != hello:
+                self.stats.dropped += 1
+                return False
+
         try:
             # TODO: log warning for packet flooding
             # if inserting dropped unacked bits then those packets will time out
